@@ -56,7 +56,7 @@ func (c *Ctx) checkRetentionSemantics(r *Report, ro *Roles, rule string) bool {
 			bad = append(bad, fmt.Sprintf(format, args...))
 		}
 	}
-	for _, maxAge := range []int64{1, 24, 168, 720} {
+	for _, maxAge := range []int64{1, 24, 168, 720, 999999, 2562047, 2562048, 3000000, 2147483647} {
 		for _, fileName := range []string{"app.log", "a"} {
 			w, _, why := c.newFsWorld(ro)
 			if w == nil {
@@ -133,7 +133,13 @@ func (c *Ctx) checkRetentionSemantics(r *Report, ro *Roles, rule string) bool {
 			// the directory: own rotated files on both sides of the cut-off, the current file, directories with own names,
 			// prefix-sharing foreign files, suffix shapes next to the 14-digit timestamp, unrelated files
 			now := w.now
+			// above 2562047 h the age does not fit a time.Duration: nothing can be that old, nothing may be removed
+			// (the population is then laid out around a cut-off of 1000 h)
+			unbounded := maxAge > 2562047
 			cut := now.Add(-time.Duration(maxAge) * time.Hour)
+			if unbounded {
+				cut = now.Add(-1000 * time.Hour)
+			}
 			old, young := cut.Add(-90*time.Minute), cut.Add(90*time.Minute)
 			ts := func(t time.Time) string { return t.Format("20060102150405") }
 			var entries []retEntry
@@ -173,6 +179,9 @@ func (c *Ctx) checkRetentionSemantics(r *Report, ro *Roles, rule string) bool {
 			sort.Slice(entries, func(i, j int) bool { return entries[i].name < entries[j].name })
 			want := map[string]bool{}
 			for _, e := range entries {
+				if unbounded {
+					break
+				}
 				if ownProduced[e.name] && e.mtime.Before(cut) {
 					want[e.name] = true // whatever its shape: the appender made it
 					continue
@@ -200,6 +209,9 @@ func (c *Ctx) checkRetentionSemantics(r *Report, ro *Roles, rule string) bool {
 				if pass == 2 {
 					// later, in the same appender: the files that survived have all been modified half a maximum age ago (a straggling
 					// writer, a restore, touch); nothing may be removed although their earlier modification times are old now
+					if maxAge > 100000 {
+						continue // the clock cannot be advanced by more than a century in this model
+					}
 					w.now = w.now.Add(time.Duration(maxAge)*time.Hour + 3*time.Hour)
 					now = w.now
 					cut = now.Add(-time.Duration(maxAge) * time.Hour)
@@ -393,7 +405,7 @@ func (c *Ctx) checkRetentionSemantics(r *Report, ro *Roles, rule string) bool {
 		return false
 	}
 	okAll = true
-	r.OK(key, "the function launched by a rotation evaluated over %d directory populations (%d entries; max ages 1, 24, 168, 720 h; two file names; sorted and unsorted listings): removed are exactly the regular files '<name>.<14-digit timestamp>' modified before the cut-off — not younger files (age by modification time, not by name), the file being written, directories, the bare name, name.wf.<ts>, name.audit.<ts>, name.bak, name.1.gz, timestamps with 13/15 digits, fractional seconds, signs, spaces or impossible dates, other prefixes or cases; removal paths are entries of the configured directory", nRuns, nEntries)
+	r.OK(key, "the function launched by a rotation evaluated over %d directory populations (%d entries; max ages 1, 24, 168, 720, 999999, 2562047 h and three ages whose duration overflows; two file names; sorted and unsorted listings): removed are exactly the regular files '<name>.<14-digit timestamp>' modified before the cut-off — not younger files (age by modification time, not by name), the file being written, directories, the bare name, name.wf.<ts>, name.audit.<ts>, name.bak, name.1.gz, timestamps with 13/15 digits, fractional seconds, signs, spaces or impossible dates, other prefixes or cases; removal paths are entries of the configured directory", nRuns, nEntries)
 	return true
 }
 
